@@ -114,9 +114,11 @@ PLAN = {
     ("C02", "quick"): ["eqw", "dyn", "gcts"],
     ("C03", "quick"): ["gc1", "gc2", "iref"],
     ("C04", "quick"): ["twin"],
-    ("C01", "thorough"): ["dyn", "trk", "memo", "rmgc", "eqw5", "dyn6", "outer", "gc3", "iref3", "outl6"],
-    ("C02", "thorough"): ["eqw5", "dyn", "trk", "dyn6", "outer", "gc1v", "iref3", "gcts", "outl6"],
-    ("C03", "thorough"): ["gc1v", "gc2w", "memo", "gc3", "dyn6", "outer", "iref", "iref3", "gcts"],
+    # (each configuration belongs to the property whose mechanism it exercises; every check still judges all three
+    #  layer-A predicates on what it replays and reports the other properties' failures in its evidence)
+    ("C01", "thorough"): ["dyn", "trk", "memo", "rmgc", "eqw5", "dyn6", "outer", "iref3", "outl6"],
+    ("C02", "thorough"): ["eqw5", "dyn", "trk", "dyn6", "outer", "iref3", "gcts", "outl6"],
+    ("C03", "thorough"): ["gc1v", "gc2w", "memo", "gc3", "iref", "iref3", "gcts"],
     ("C04", "thorough"): ["twin5", "twin6"],
 }
 SIM_NODESETS = [ALL_NODES,
